@@ -53,7 +53,8 @@ const keyOrgDeleteIndex = "org-delete-untrimmed-index-key"
 
 var rec = ev.For("C30", "exploration",
 	"case = one history (about 45 steps) of create/rename/update/delete operations on organizations, buckets, users and memberships with names from 3-6 element pools, checked against a model after every step; "+
-		"NON-TRIVIAL when the history contains (a) a successful rename onto a name that was used before and had become free, (b) a rename rejected because the name is taken, and (c) the deletion of an organization that owned at least one user bucket and at least one membership; distinct by the executed operation list")
+		"NON-TRIVIAL when the history contains (a) a successful rename onto a name that was used before and had become free, (b) a rename rejected because the name is taken, and (c) the deletion of an organization that owned at least one user bucket and at least one membership; distinct by the executed operation list. "+
+		"Second family (TestPropTenantLargePopulations): case = populations with sizes drawn around and beyond the paging constants 20 and 100 (organizations, buckets per organization, users, members of one resource, memberships of one user) followed by 2-5 cascading or colliding operations, the same full comparison after each; NON-TRIVIAL when an organization owning more than 20 buckets is deleted")
 
 // ---- model ----------------------------------------------------------------------------------
 
@@ -114,6 +115,7 @@ type sys struct {
 	everUser    map[string]bool
 
 	hist []string
+	test string // name of the running property (propName when empty)
 
 	renameOntoFreed, renameCollision, orgCascade bool
 	createOntoFreed, sysProtected                bool
@@ -158,7 +160,11 @@ func (s *sys) logf(format string, a ...any) { s.hist = append(s.hist, fmt.Sprint
 
 func (s *sys) fail(t *rapid.T, key, format string, a ...any) {
 	detail := fmt.Sprintf(format, a...)
-	rec.Fail(t, propName, key, detail+" | history: "+strings.Join(s.hist, " ; "), map[string]any{"history": s.hist})
+	test := s.test
+	if test == "" {
+		test = propName
+	}
+	rec.Fail(t, test, key, detail+" | history: "+strings.Join(s.hist, " ; "), map[string]any{"history": s.hist})
 }
 
 func code(err error) string {
@@ -403,8 +409,19 @@ func (s *sys) deleteOrg(t *rapid.T) {
 		return
 	}
 	s.expect(t, "delete-org", err)
+	userBuckets, memberships := s.applyOrgDelete(o)
+	if userBuckets > 0 && memberships > 0 {
+		s.orgCascade = true
+		rec.Class("org-delete:with-user-buckets-and-memberships")
+	} else {
+		rec.Class("org-delete:bare")
+	}
+}
+
+// applyOrgDelete is the model of a successful DeleteOrganization: the organization, ALL its buckets
+// (however many there are) and every membership on the organization or one of its buckets are gone.
+func (s *sys) applyOrgDelete(o *orgM) (userBuckets, memberships int) {
 	o.live = false
-	userBuckets, memberships := 0, 0
 	gone := map[platform.ID]bool{o.id: true}
 	for _, b := range s.buckets {
 		if b.live && b.org == o.id {
@@ -421,12 +438,7 @@ func (s *sys) deleteOrg(t *rapid.T) {
 			memberships++
 		}
 	}
-	if userBuckets > 0 && memberships > 0 {
-		s.orgCascade = true
-		rec.Class("org-delete:with-user-buckets-and-memberships")
-	} else {
-		rec.Class("org-delete:bare")
-	}
+	return userBuckets, memberships
 }
 
 func (s *sys) createBucket(t *rapid.T) {
@@ -769,6 +781,34 @@ func (s *sys) sameSet(t *rapid.T, key, what string, got, want []string) {
 	}
 }
 
+// The names probed by the by-name lookups: the whole pool plus every name the model has ever held
+// (live or deleted), so that histories with names outside the pools are covered in the same way.
+func (s *sys) orgNamesToProbe() []string {
+	names := append([]string{}, orgNames...)
+	for _, o := range s.orgs {
+		names = append(names, o.name)
+	}
+	return uniq(names)
+}
+
+func (s *sys) bucketNamesToProbe(org platform.ID) []string {
+	names := append([]string{}, bucketNames...)
+	for _, b := range s.buckets {
+		if b.org == org {
+			names = append(names, b.name)
+		}
+	}
+	return uniq(names)
+}
+
+func (s *sys) userNamesToProbe() []string {
+	names := append([]string{}, userNames...)
+	for _, u := range s.users {
+		names = append(names, u.name)
+	}
+	return uniq(names)
+}
+
 func notFound(err error) bool { return err != nil && ierrors.ErrorCode(err) == ierrors.ENotFound }
 
 func (s *sys) verify(t *rapid.T) {
@@ -794,7 +834,7 @@ func (s *sys) verify(t *rapid.T) {
 		}
 	}
 	s.sameSet(t, "list-orgs", "organization listing", got, want)
-	for _, name := range uniq(orgNames) {
+	for _, name := range s.orgNamesToProbe() {
 		name := name
 		o, err := s.svc.FindOrganization(ctx, influxdb.OrganizationFilter{Name: &name})
 		m := s.liveOrgByKey(orgKey(name))
@@ -851,7 +891,7 @@ func (s *sys) verify(t *rapid.T) {
 			}
 		}
 		s.sameSet(t, "list-org-buckets", fmt.Sprintf("buckets of organization %v (live=%v)", o.id, o.live), got, want)
-		for _, name := range uniq(bucketNames) {
+		for _, name := range s.bucketNamesToProbe(o.id) {
 			name := name
 			b, err := s.svc.FindBucket(ctx, influxdb.BucketFilter{OrganizationID: &oid, Name: &name})
 			m := s.liveBucket(o.id, name)
@@ -893,7 +933,7 @@ func (s *sys) verify(t *rapid.T) {
 		}
 	}
 	s.sameSet(t, "list-users", "user listing", got, want)
-	for _, name := range userNames {
+	for _, name := range s.userNamesToProbe() {
 		name := name
 		u, err := s.svc.FindUser(ctx, influxdb.UserFilter{Name: &name})
 		m := s.liveUser(name)
